@@ -526,7 +526,7 @@ func x10RunSDKGroup(t *testing.T, path string, handler bool, decl string, cases 
 		e.mu.Unlock()
 		return &CallToolResult{Content: []Content{&TextContent{Text: "done"}}}, nil
 	})
-	ctx, cancel := context.WithTimeout(context.Background(), 120*time.Second)
+	ctx, cancel := context.WithTimeout(context.Background(), 15*time.Minute)
 	defer cancel()
 	ct, st := NewInMemoryTransports()
 	ss, err := server.Connect(ctx, st, nil)
@@ -560,7 +560,7 @@ func x10RunSDKGroup(t *testing.T, path string, handler bool, decl string, cases 
 		e.mu.Lock()
 		e.cur, e.idx, e.asked, e.sent, e.got, e.gotRes, e.gotErr = c, idxs[i], 0, 0, false, nil, nil
 		e.mu.Unlock()
-		cctx, ccancel := context.WithTimeout(ctx, 20*time.Second)
+		cctx, ccancel := context.WithTimeout(ctx, 90*time.Second)
 		_, callErr := cs.CallTool(cctx, &CallToolParams{Name: tool})
 		ccancel()
 		e.mu.Lock()
@@ -615,7 +615,7 @@ func x10RunRawGroup(t *testing.T, handler bool, decl string, uh bool, cases []*x
 	if err != nil {
 		t.Fatal(err)
 	}
-	ctx, cancel := context.WithTimeout(context.Background(), 120*time.Second)
+	ctx, cancel := context.WithTimeout(context.Background(), 15*time.Minute)
 	defer cancel()
 	cs, err := client.Connect(ctx, ct, &ClientSessionOptions{ProtocolVersion: "2025-11-25"})
 	if err != nil {
@@ -629,7 +629,7 @@ func x10RunRawGroup(t *testing.T, handler bool, decl string, uh bool, cases []*x
 				if fmt.Sprint(r.ID.Raw()) == fmt.Sprint(id) {
 					return r
 				}
-			case <-time.After(20 * time.Second):
+			case <-time.After(90 * time.Second):
 				return nil
 			}
 		}
@@ -696,6 +696,125 @@ func x10RunRawGroup(t *testing.T, handler bool, decl string, uh bool, cases []*x
 	}
 }
 
+// the other way round: a real Server whose client is a scripted peer.  The peer declares the capability `decl`
+// says, calls the tool "direct" (whose handler calls ServerSession.Elicit) and answers elicitation/create with
+// exactly what the case says.
+func x10RunRawClientGroup(t *testing.T, handler bool, decl string, cases []*x10Case, idxs []int, emit func(*x10Case, x10Out)) {
+	e := &x10Env{}
+	server := NewServer(x10Impl, nil)
+	server.AddTool(&Tool{Name: "direct", InputSchema: json.RawMessage(`{"type":"object"}`)}, func(ctx context.Context, req *CallToolRequest) (*CallToolResult, error) {
+		e.mu.Lock()
+		c, idx := e.cur, e.idx
+		e.mu.Unlock()
+		res, err := req.Session.Elicit(ctx, x10Params(c, idx))
+		e.mu.Lock()
+		e.gotRes, e.gotErr, e.got = res, err, true
+		e.mu.Unlock()
+		return &CallToolResult{Content: []Content{&TextContent{Text: "done"}}}, nil
+	})
+	ctx, cancel := context.WithTimeout(context.Background(), 15*time.Minute)
+	defer cancel()
+	ct, st := NewInMemoryTransports()
+	ss, err := server.Connect(ctx, st, nil)
+	if err != nil {
+		t.Fatalf("x10: server.Connect: %v", err)
+	}
+	defer ss.Close()
+	conn, err := ct.Connect(ctx)
+	if err != nil {
+		t.Fatal(err)
+	}
+	defer conn.Close()
+	caps := map[string]any{}
+	switch decl {
+	case "infer":
+		if handler {
+			caps["elicitation"] = map[string]any{"form": map[string]any{}}
+		}
+	case "empty":
+		caps["elicitation"] = map[string]any{}
+	case "form":
+		caps["elicitation"] = map[string]any{"form": map[string]any{}}
+	case "url":
+		caps["elicitation"] = map[string]any{"url": map[string]any{}}
+	case "both":
+		caps["elicitation"] = map[string]any{"form": map[string]any{}, "url": map[string]any{}}
+	}
+	write := func(raw string) {
+		m, err := jsonrpc.DecodeMessage([]byte(raw))
+		if err != nil {
+			t.Fatalf("x10: %v: %s", err, raw)
+		}
+		if err := conn.Write(ctx, m); err != nil {
+			t.Fatalf("x10: peer write: %v", err)
+		}
+	}
+	write(`{"jsonrpc":"2.0","id":1,"method":"initialize","params":{"protocolVersion":"2025-11-25","capabilities":` + x10JSON(caps) + `,"clientInfo":{"name":"x10-peer","version":"v1"}}}`)
+	if _, err := conn.Read(ctx); err != nil {
+		t.Fatalf("x10: initialize: %v", err)
+	}
+	write(`{"jsonrpc":"2.0","method":"notifications/initialized","params":{}}`)
+	for i, c := range cases {
+		e.mu.Lock()
+		e.cur, e.idx, e.got, e.gotRes, e.gotErr = c, idxs[i], false, nil, nil
+		e.mu.Unlock()
+		id := 100 + i
+		write(fmt.Sprintf(`{"jsonrpc":"2.0","id":%d,"method":"tools/call","params":{"name":"direct","arguments":{}}}`, id))
+		sent, asked := 0, 0
+		for {
+			m, err := conn.Read(ctx)
+			if err != nil {
+				t.Fatalf("x10: peer read: %v", err)
+			}
+			if r, ok := m.(*jsonrpc.Response); ok && fmt.Sprint(r.ID.Raw()) == fmt.Sprint(id) {
+				break
+			}
+			r, ok := m.(*jsonrpc.Request)
+			if !ok || r.Method != "elicitation/create" {
+				continue
+			}
+			sent++
+			resp := &jsonrpc.Response{ID: r.ID}
+			switch {
+			case !handler:
+				resp.Error = &jsonrpc.Error{Code: -32601, Message: "x10 peer: method not found"}
+			case c.Res.Act == "herr":
+				asked++
+				resp.Error = &jsonrpc.Error{Code: -32000, Message: "x10 peer: the user interface failed"}
+			default:
+				asked++
+				act := c.Res.Act
+				if act == "bogus" {
+					act = "maybe"
+				}
+				res := map[string]any{"action": act}
+				if content := x10Content(c, idxs[i]); content != nil {
+					res["content"] = content
+				}
+				resp.Result = json.RawMessage(x10JSON(res))
+			}
+			if err := conn.Write(ctx, resp); err != nil {
+				t.Fatalf("x10: peer write: %v", err)
+			}
+		}
+		e.mu.Lock()
+		o := x10Out{Sent: sent > 0, Asked: asked}
+		switch {
+		case e.got && e.gotErr == nil && e.gotRes != nil:
+			x10Classify(c, idxs[i], e.gotRes.Action, e.gotRes.Content, &o)
+		case e.got:
+			o.Ret, o.Code, o.Cont, o.Pv, o.Info = "error", x10ErrCode(e.gotErr), "nil", "absent", e.gotErr.Error()
+		default:
+			o.Ret, o.Code, o.Cont, o.Pv, o.Info = "error", "other", "nil", "absent", "x10: the tool handler did not run"
+		}
+		e.mu.Unlock()
+		if len(o.Info) > 200 {
+			o.Info = o.Info[:200]
+		}
+		emit(c, o)
+	}
+}
+
 const x10ChildMark = "X10CHILD:"
 
 // TestVerif_X10Child runs ONE raw case (VERIF_X10_CASE) and prints its outcome; when the client dies, so does this process.
@@ -714,7 +833,7 @@ func TestVerif_X10Child(t *testing.T) {
 }
 
 func x10RunChild(t *testing.T, c *x10Case) x10Out {
-	cmd := exec.Command(os.Args[0], "-test.run=^TestVerif_X10Child$", "-test.count=1", "-test.timeout=120s")
+	cmd := exec.Command(os.Args[0], "-test.run=^TestVerif_X10Child$", "-test.count=1", "-test.timeout=300s")
 	cmd.Env = append(os.Environ(), "VERIF_X10_CASE="+x10JSON(c), "VERIF_IN=", "VERIF_OUT=", "VERIF_URL_IN=", "VERIF_URL_OUT=")
 	var buf bytes.Buffer
 	cmd.Stdout, cmd.Stderr = &buf, &buf
@@ -817,6 +936,8 @@ func TestVerif_X10Table(t *testing.T) {
 		}
 		if k.path == "raw" {
 			x10RunRawGroup(t, k.handler, k.decl, k.uh, cs, idxs, emit)
+		} else if k.path == "rawc" {
+			x10RunRawClientGroup(t, k.handler, k.decl, cs, idxs, emit)
 		} else {
 			x10RunSDKGroup(t, k.path, k.handler, k.decl, cs, idxs, emit)
 		}
